@@ -253,6 +253,18 @@ pub(crate) mod verif_sem {
                 if dead[1] { assert!(c1a.n() == dsn[1][0] && c1b.n() == dsn[1][1], "C01 semaphore: the task of a dropped future was woken (dangling waiter)"); }
                 if dead[2] { assert!(c2a.n() == dsn[2][0] && c2b.n() == dsn[2][1], "C01 semaphore: the task of a dropped future was woken (dangling waiter)"); }
             }
+            if (p & P01) != 0 {
+                // C01 directly on the queue: a completed future (or one that was never polled) is not a member of the wait queue
+                let g = sem.state.lock();
+                if alive[0] && (done[0] || fresh[0]) { assert!(g.waiters.verif_pos_from_tail(&f0.wait_node as *const _, 3).is_none(), "C01 semaphore: a completed (or never polled) acquire future is still linked in the wait queue"); }
+                if alive[1] && (done[1] || fresh[1]) { assert!(g.waiters.verif_pos_from_tail(&f1.wait_node as *const _, 3).is_none(), "C01 semaphore: a completed (or never polled) acquire future is still linked in the wait queue"); }
+                if alive[2] && (done[2] || fresh[2]) { assert!(g.waiters.verif_pos_from_tail(&f2.wait_node as *const _, 3).is_none(), "C01 semaphore: a completed (or never polled) acquire future is still linked in the wait queue"); }
+                let npend = (alive[0] && pending[0]) as usize + (alive[1] && pending[1]) as usize + (alive[2] && pending[2]) as usize;
+                match g.waiters.verif_len_checked(4) {
+                    Some(l) => assert!(l <= npend, "C01 semaphore: the wait queue holds more nodes than there are live pending futures"),
+                    None => assert!(false, "C01 semaphore: the wait queue's links are inconsistent"),
+                }
+            }
             if (p & P17) != 0 {
                 if alive[0] { assert!(f0.is_terminated() == done[0], "C17 semaphore: is_terminated() differs from 'completed'"); }
                 if alive[1] { assert!(f1.is_terminated() == done[1], "C17 semaphore: is_terminated() differs from 'completed'"); }
